@@ -332,7 +332,7 @@ pub fn eval(case: &Case) -> Out {
 }
 
 pub fn run(ctx: &Ctx) -> i32 {
-    let cases = ctx.tier.pick(6_000, 300_000);
+    let cases = ctx.tier.pick(30_000, 800_000);
     let thorough = ctx.tier == Tier::Thorough;
     let agg = run_prop(ctx, "case-c09", 16, cases, move || strategy(thorough), |case: &Case| {
         let out = eval(case);
